@@ -152,8 +152,14 @@ static int icmd_pos;		/* icmd[] position */
 /* read s before reading from the terminal */
 void term_push(char *s, int n)
 {
+	if (ibuf_pos > 0) {		/* drop what has been read already */
+		memmove(ibuf, ibuf + ibuf_pos, ibuf_cnt - ibuf_pos);
+		ibuf_cnt -= ibuf_pos;
+		ibuf_pos = 0;
+	}
 	n = MIN(n, sizeof(ibuf) - ibuf_cnt);
-	memcpy(ibuf + ibuf_cnt, s, n);
+	memmove(ibuf + n, ibuf, ibuf_cnt);	/* pushed keys come before pending ones */
+	memcpy(ibuf, s, n);
 	ibuf_cnt += n;
 }
 
